@@ -198,6 +198,21 @@ class Module(object):
         elif e[0] == 'idx':
             raise ReaderError('memory index inside an expression')
 
+    def check_selects(self, e, decl):
+        """a bit-select needs a vector and an index inside its range"""
+        if e[0] == 'bit':
+            if decl[e[1]] == 1:
+                raise ReaderError('bit-select of a scalar: %s[%d]' % (e[1], e[2]))
+            if not 0 <= e[2] < decl[e[1]]:
+                raise ReaderError('bit-select out of range: %s[%d]' % (e[1], e[2]))
+        elif e[0] in ('not', 'bin', 'cmp', 'cond'):
+            for x in e[1:]:
+                if isinstance(x, tuple):
+                    self.check_selects(x, decl)
+        elif e[0] == 'cat':
+            for x in e[1]:
+                self.check_selects(x, decl)
+
     def validate(self):
         names = [n for n, _ in self.inputs + self.outputs + self.regs + self.wires]
         names += ['mem_%d' % i for i, _, _ in self.mems] + ['clk'] + (['rst'] if self.has_rst else [])
@@ -223,6 +238,8 @@ class Module(object):
         und = sorted(u for u in used if u not in decl)
         if und:
             raise ReaderError('undeclared identifier(s): %s' % ', '.join(und[:5]))
+        for _, e in self.assigns + self.resets + self.updates:
+            self.check_selects(e, decl)
         want = ['clk'] + (['rst'] if self.has_rst else []) + [n for n, _ in self.inputs] + \
                [n for n, _ in self.outputs]
         if self.ports != want:
